@@ -159,7 +159,13 @@ impl ast::Visit for Visitor<'_, '_> {
                 }
             },
 
-            ast::StmtKind::CallSub { .. } => unimplemented!("need to check arg types against signature"),
+            ast::StmtKind::CallSub { func, .. } => {
+                // FIXME: need to check arg types against signature
+                self.errors.set(self.ctx.emitter.emit(error!(
+                    message("sub call syntax is not yet supported"),
+                    primary(func, "unsupported syntax"),
+                )));
+            },
 
             ast::StmtKind::InterruptLabel { .. } => {},
             ast::StmtKind::AbsTimeLabel { .. } => {},
